@@ -223,6 +223,8 @@ def battery_violations(text, inter, jobs):
 
 
 def confirm_timeout(text, cfg):
+    if ml.has_large_number(text):
+        return False  # work proportional to a number of the input is not a hang
     for _ in range(3):
         if run_cfg(text, cfg, timeout=60).cls != "timeout":
             return False
